@@ -246,7 +246,8 @@ func ByteSlice(ctx context.Context, args ...object.Object) object.Object {
 	arg := args[0]
 	switch arg := arg.(type) {
 	case *object.Buffer:
-		return object.NewByteSlice(arg.Value().Bytes())
+		// A copy: Bytes() is the buffer's own storage
+		return object.NewByteSlice(bytes.Clone(arg.Value().Bytes()))
 	case *object.ByteSlice:
 		return arg.Clone()
 	case *object.String:
@@ -286,9 +287,10 @@ func Buffer(ctx context.Context, args ...object.Object) object.Object {
 	arg := args[0]
 	switch arg := arg.(type) {
 	case *object.Buffer:
-		return object.NewBufferFromBytes(arg.Value().Bytes())
+		// The new buffer gets a copy of the bytes, not the storage of its argument
+		return object.NewBufferFromBytes(bytes.Clone(arg.Value().Bytes()))
 	case *object.ByteSlice:
-		return object.NewBufferFromBytes(arg.Value())
+		return object.NewBufferFromBytes(bytes.Clone(arg.Value()))
 	case *object.String:
 		return object.NewBufferFromBytes([]byte(arg.Value()))
 	case *object.Int:
